@@ -10,6 +10,15 @@ import json, os, sys
 
 HERE = os.path.dirname(os.path.dirname(os.path.abspath(__file__)))
 ANGLES = {
+    "6": ("Ideas that have NOT been used much yet: 'cleanup' refactors that remove a seemingly redundant step (a second strip, a "
+          "re-validation, a defensive copy, an `or None` / `or hostname` fallback, a guard that looks unreachable, a try/except around a "
+          "call that 'cannot fail'); changes whose effect only shows when two public functions are COMPOSED or when the less common of two "
+          "equivalent API forms is used (a SplitResult instead of a str, a list instead of a dict, bytes instead of str, unsplit=False); "
+          "changes to what is returned for input that cannot be parsed or has no host; encoding-level edits (codec names, error "
+          "handlers, Unicode normalization forms, `re.UNICODE` / `re.ASCII`, str.lower vs casefold, isspace vs an explicit class); loops "
+          "turned back into recursion or the reverse with an off-by-one in the stopping rule; a helper shared by several modules given a "
+          "slightly different contract for ONE of its callers. The change must remain a plausible maintenance edit, keep the 96 tests "
+          "green, and break the property AS STATED for an input inside the quantified domain."),
     "5": ("Ideas that have NOT been used much yet: Python-level slips (a mutable default argument or module-level object shared "
           "between calls, a generator consumed twice, `is` vs `==`, truthiness of 0 / '' / empty containers, int vs bool vs str "
           "values, bytes vs str, an exception swallowed or raised at a different place, a py2/py3 compatibility branch); "
@@ -39,7 +48,7 @@ def main():
         o = os.path.join(out, pid)
         os.makedirs(o, exist_ok=True)
         text = TEMPLATE.format(w=w, o=o, pid=pid, title=p["title"], statement=p["statement"], quant=p["quantifier"]["text"],
-                               angle=ANGLES[rnd], earlier="\n".join(earlier.get(pid, [])), nth={"5": "FIFTH"}[rnd])
+                               angle=ANGLES[rnd], earlier="\n".join(earlier.get(pid, [])), nth={"5": "FIFTH", "6": "SIXTH"}[rnd])
         open(os.path.join(o, "prompt.txt"), "w").write(text)
     print(len(props), "prompts in", out)
 
